@@ -98,7 +98,20 @@ def run_history(ops, check_every=True):
             elif op == "ec":
                 new(Cell.empty())
             elif op == "sb":
-                objs[int(f[1])].store_bits(f[2])
+                # "append these bits", through a different writer depending on the length (all are the same operation in
+                # the model): byte-aligned strings through store_bytes, 3 bits bit by bit, 500 bits as one integer
+                bld, bits_ = objs[int(f[1])], f[2]
+                if len(bits_) % 8 == 0:
+                    bld.store_bytes(int(bits_, 2).to_bytes(len(bits_) // 8, "big"))
+                elif len(bits_) == 3:
+                    if len(bld.bits) + 3 > 1023:
+                        raise OverflowError("refused as a whole")
+                    for ch in bits_:
+                        bld.store_bit(int(ch))
+                elif len(bits_) >= 100:
+                    bld.store_uint(int(bits_, 2), len(bits_))
+                else:
+                    bld.store_bits(bits_)
             elif op == "sr":
                 objs[int(f[1])].store_ref(objs[int(f[2])])
             elif op == "sc":
